@@ -830,12 +830,35 @@ func miscRules(c *Ctx, a *flAgg) {
 		x.Explore()
 		recv, raw := f.Params[0].Name(), f.Params[1].Name()
 		okC, okI, okN := true, true, true
+		okDot := true
 		nOK := 0
 		for _, p := range x.Paths {
 			if p.Term != "return" || len(p.Results) != 1 || !p.Results[0].isNilConst() {
 				continue
 			}
 			nOK++
+			// a symbol with a path part must have a dot after its last slash
+			slash, haveSlash := false, false
+			dotMissing, haveDot := false, false
+			for _, lt := range p.Lits {
+				at := lt.Atom
+				if at.Op != OpBin || at.Tok != token.EQL || len(at.Args) != 2 {
+					continue
+				}
+				k, isC := at.Args[1].intConst()
+				if !isC || k != -1 {
+					continue
+				}
+				if at.Args[0].calleeIs("strings", "LastIndexByte") && len(at.Args[0].Args) == 3 && at.Args[0].Args[1].String() == raw {
+					slash, haveSlash = !lt.Pol, true
+				}
+				if at.Args[0].calleeIs("strings", "IndexByte") && len(at.Args[0].Args) == 3 && at.Args[0].Args[1].Op == OpSlice {
+					dotMissing, haveDot = lt.Pol, true
+				}
+			}
+			if haveSlash && slash && !(haveDot && !dotMissing) {
+				okDot = false
+			}
 			comp := p.Cells["&"+recv+".Complete"]
 			if comp == nil || !(comp.Op == OpExtract && comp.ID == 0 && comp.Args[0].calleeIs("net/url", "QueryUnescape") && comp.Args[0].Args[1].String() == raw) {
 				okC = false
@@ -849,6 +872,11 @@ func miscRules(c *Ctx, a *flAgg) {
 			if nm == nil || !(strings.Contains(nm.String(), "QueryUnescape("+raw+")#0[") ) {
 				okN = false
 			}
+		}
+		if okDot {
+			a.ok("PARSE-funcinit", "Func.Init/dot-after-path", "a symbol with a path part is accepted only with a dot after its last slash", f.Pos())
+		} else {
+			a.bad("PARSE-funcinit", "Func.Init/dot-after-path", "a symbol with a path part but no dot after its last slash is accepted: package and name are then cut at the slash itself", f.Pos())
 		}
 		if nOK > 0 && okC && okI && okN {
 			a.ok("PARSE-funcinit", "Func.Init", "Complete is the unescaped raw symbol, ImportPath the unescaped package part, Name a suffix of Complete", f.Pos())
